@@ -64,6 +64,13 @@ CHECKS, row builders: the triplet arrays are np.zeros(nb); the slots written for
   corner cells, the edge cells (3-D) and, for every side, all its ghost cells; all blocks of a side have the same row;
   the columns differ from the row only along the side's axis and are one of 0, 1, N, N+1 there; the right-hand side is
   np.zeros(ghosted size) and is assigned exactly once per side (and 0 for corners / edges); shape = ghosted size.
+INERT statements (tinert.py: print / warnings.warn / logging calls and asserts on PURE expressions, `pass`, `if <pure>:`
+  over such statements, validation guards `if <pure>: raise E(...)`, assignments to locals that only such statements
+  read) are skipped in the ghost functions, the row builders and the two dispatchers.  An `if` on the periodic flags or
+  on the grid class whose body raises is NOT skipped: it is executed as before (`bcrow_periodic_raises`, or
+  `untranslated` when it raises outside the periodic branches); only a guard whose test is not understood is skipped.
+  Trailing parameters with a default that only inert statements read are ignored in the signature checks.  The test is
+  purely syntactic (closed list of side-effect-free functions, no method call, no store): a skipped statement cannot write.
 ANY other statement or expression form makes the function `untranslated: <reason>` (no definition is emitted, its name
   is listed in `untranslated`, and the theorems about it in GenEqBC.lean no longer compile).
 Trusted (not derived): the shapes in the leaf table, C-order of `ravel` / `reshape`,
@@ -74,6 +81,7 @@ from fractions import Fraction
 
 sys.path.insert(0, os.path.dirname(os.path.abspath(__file__)))
 import tnum                                                   # noqa: E402
+import tinert                                                 # noqa: E402
 from tnum import Poly, Bad, MeshInfo, KIND, AXES, VAR, ONE, rnum, strip_outer, write_if_changed   # noqa: E402
 
 ZERO = Poly()
@@ -500,8 +508,9 @@ class Run:
         self.oracle, self.trace, self.pc = list(oracle), [], []
         self.env, self.ctx, self.guards = {}, [], {}
         self.result, self.raised = None, None
-        names = [a.arg for a in fn.args.args]
-        a = fn.args
+        self.inert = tinert.analysis(fn)
+        a = tinert.effective_args(fn)           # without the extra parameters that only inert statements read
+        names = [x.arg for x in a.args]
         if a.vararg or a.kwarg or a.kwonlyargs or a.defaults:
             raise Bad("signature")
         if role == GHOST:
@@ -552,6 +561,8 @@ class Run:
 
     def stmt(self, st):
         if isinstance(st, ast.Expr) and isinstance(st.value, ast.Constant) and isinstance(st.value.value, str):
+            return
+        if self.inert.skip(st):                 # inert statement (tinert.py): no effect on the result
             return
         st = tnum.plain_assign(st)
         if isinstance(st, ast.Assign):
@@ -639,7 +650,13 @@ class Run:
 
     # ---- branches
     def exec_if(self, st):
-        g = g_fold(self.guard(st.test))
+        try:
+            g0 = self.guard(st.test)
+        except Bad:
+            if self.inert.skip_guard(st):       # a validation guard on a test that is not understood
+                return
+            raise
+        g = g_fold(g0)
         if g[0] == "const":
             return self.block(st.body if g[1] else st.orelse)
         sides = g_flags(g)
@@ -1475,8 +1492,8 @@ def dispatcher(mesh, tree, name):
     if len(fns) != 1:
         raise Bad(f"dispatcher {name} not found")
     fn = fns[0]
-    pars = [a.arg for a in fn.args.args]
-    body = [s for s in fn.body
+    pars = [a.arg for a in tinert.effective_args(fn).args]
+    body = [s for s in tinert.live_body(fn)
             if not (isinstance(s, ast.Expr) and isinstance(s.value, ast.Constant) and isinstance(s.value.value, str))]
     if len(body) != 1 or not isinstance(body[0], ast.If):
         raise Bad(f"dispatcher {name}: expected one if-chain")
@@ -1612,6 +1629,7 @@ variable {α : Type} [Field α] [LinearOrder α] [IsStrictOrderedRing α]
 
 
 def generate(repo):
+    tinert.set_repo(repo)
     src = os.path.join(repo, "src", "pyfvtool")
 
     def parse(f):
@@ -1665,6 +1683,7 @@ def main():
     repo = os.environ.get("VERIF_REPO", "/repo")
     dst = sys.argv[1]
     text, status = generate(repo)
+    status = tinert.annotate(status)
     write_if_changed(dst, text)
     base = os.path.splitext(os.path.basename(dst))[0].lower()
     write_if_changed(os.path.join(os.path.dirname(os.path.abspath(dst)), f"{base}_status.json"),
